@@ -285,9 +285,13 @@ End Ser.
    * (T1..Tn), tuple struct (n <> 1): deserialize_tuple / deserialize_tuple_struct;
                      visit_seq reads exactly n elements, None before that is invalid_length.
    * newtype struct  deserialize_newtype_struct; visit_newtype_struct(d) -> T::deserialize(d).
-   * BTreeMap<K,V>   deserialize_map; visit_map reads next_entry::<K,V> until None
-                     (a later equal key would overwrite: not modelled, keys of a JSON object
-                     produced by to_value / serde_json are distinct).
+   * BTreeMap<K,V> / HashMap<K,V>
+                     deserialize_map; visit_map reads next_entry::<K,V> until None and
+                     `insert`s each pair: every entry of the object is deserialized (a
+                     failure anywhere is the failure of the whole), and of several entries
+                     whose keys deserialize to EQUAL K the LAST value is kept ([last_wins];
+                     equal K covers a repeated JSON key and, for integer keys, spellings
+                     such as "1" / "+1" / "01").
      keys: String -> deserialize_string; iN/uN -> deserialize_iN/uN accepting visit_iN of
      its own type only; char -> deserialize_char; enum -> deserialize_enum.
    * struct          deserialize_struct; visit_seq positional as a tuple; visit_map: every
@@ -393,6 +397,28 @@ Section De.
       obind (de_tuple (map snd fts) l) (fun xs => Ok (combine (map fst fts) xs)).
   End Lists.
 
+  (* equality of deserialized map keys (the four key kinds of MapKeyDeserializer's clients:
+     String, iN/uN, char, unit-variant enum; Ord-equal = identical for all of them) *)
+  Definition key_eqb (a b : tsd) : bool :=
+    match a, b with
+    | SdStr x, SdStr y => str_eqb x y
+    | SdInt _ x, SdInt _ y => x =? y
+    | SdChar x, SdChar y => N.eqb x y
+    | SdUnitVariant _ x, SdUnitVariant _ y => str_eqb x y
+    | _, _ => false
+    end.
+
+  (* BTreeMap / HashMap built by successive `insert`s: an entry is kept iff no later entry has
+     an equal key (as a map: the last value of every key; the order of the kept entries is
+     immaterial for a Rust map and is the order of last occurrences here) *)
+  Fixpoint last_wins (l : list (tsd * tsd)) : list (tsd * tsd) :=
+    match l with
+    | [] => []
+    | kx :: r =>
+        if existsb (fun e : tsd * tsd => key_eqb (fst kx) (fst e)) r then last_wins r
+        else kx :: last_wins r
+    end.
+
   Fixpoint de (fuel : nat) (t : ty) (v : value) {struct fuel} : dres :=
     match fuel with
     | O => OutOfFuel
@@ -422,7 +448,7 @@ Section De.
             end
         | TyMap kt t' =>
             match v with
-            | VObj es => obind (de_entries (de f) kt t' es) (fun xs => Ok (SdMap xs))
+            | VObj es => obind (de_entries (de f) kt t' es) (fun xs => Ok (SdMap (last_wins xs)))
             | _ => Err tt
             end
         | TyNamed n =>
